@@ -4,7 +4,8 @@ import random
 RULE = ("each case runs propka.run.single on a structure (repository proteins, cut-outs, acid-only / "
         "base-only / no-titratable-group subsets, the multi-conformation files) with a random -g grid, "
         "then calls get_charge_profile and get_pi on the result with random grids, windows and "
-        "precisions 1e-2..1e-6. Oracle: an independent Henderson-Hasselbalch evaluation from the group "
+        "precisions 1e-2..1e-6; for multi-conformation inputs a .pka file is written per conformation "
+        "(propka.output.write_pka) and its table and pI line are checked against that conformation. Oracle: an independent Henderson-Hasselbalch evaluation from the group "
         "records (folded <- predicted pKa, unfolded <- model pKa); contract on every "
         "Group.calculate_charge call. Non-trivial: the structure has >= 2 titratable groups whose "
         "predicted pKa differs from the model pKa by > 0.05, and at least one pI with a sign change in "
